@@ -132,10 +132,13 @@ func handleZADD(params internal.HandlerFuncParams) ([]byte, error) {
 		if err != nil {
 			return nil, err
 		}
-		// If INCR option is provided, return the new score value
+		// If INCR option is provided, return the new score value, or nil when NX/XX/GT/LT prevented the update
 		if incr != nil {
+			if count == 0 {
+				return []byte("$-1\r\n"), nil
+			}
 			m := set.Get(members[0].Value)
-			return []byte(fmt.Sprintf("+%f\r\n", m.Score)), nil
+			return []byte(fmt.Sprintf("+%s\r\n", strconv.FormatFloat(float64(m.Score), 'f', -1, 64))), nil
 		}
 
 		return []byte(fmt.Sprintf(":%d\r\n", count)), nil
@@ -427,7 +430,7 @@ func handleZINCRBY(params internal.HandlerFuncParams) ([]byte, error) {
 	if _, err = set.AddOrUpdate(
 		[]MemberParam{
 			{Value: member, Score: increment}},
-		"xx",
+		nil,
 		nil,
 		nil,
 		"incr"); err != nil {
